@@ -39,6 +39,29 @@ func (a Bool) M__index__() (Int, error) {
 	return Int(0), nil
 }
 
+// bool is a kind of int: it converts to the numeric types as 0 or 1
+
+func (a Bool) M__int__() (Object, error) {
+	if a {
+		return Int(1), nil
+	}
+	return Int(0), nil
+}
+
+func (a Bool) M__float__() (Object, error) {
+	if a {
+		return Float(1), nil
+	}
+	return Float(0), nil
+}
+
+func (a Bool) M__complex__() (Object, error) {
+	if a {
+		return Complex(1), nil
+	}
+	return Complex(0), nil
+}
+
 func (a Bool) M__str__() (Object, error) {
 	return a.M__repr__()
 }
@@ -106,6 +129,9 @@ func notEq(eq Object, err error) (Object, error) {
 // Check interface is satisfied
 var _ I__bool__ = Bool(false)
 var _ I__index__ = Bool(false)
+var _ I__int__ = Bool(false)
+var _ I__float__ = Bool(false)
+var _ I__complex__ = Bool(false)
 var _ I__str__ = Bool(false)
 var _ I__repr__ = Bool(false)
 var _ I__eq__ = Bool(false)
@@ -143,8 +169,6 @@ func (a Bool) M__neg__() (Object, error)    { return a.asInt().M__neg__() }
 func (a Bool) M__pos__() (Object, error)    { return a.asInt().M__pos__() }
 func (a Bool) M__abs__() (Object, error)    { return a.asInt().M__abs__() }
 func (a Bool) M__invert__() (Object, error) { return a.asInt().M__invert__() }
-func (a Bool) M__int__() (Object, error)    { return a.asInt(), nil }
-func (a Bool) M__float__() (Object, error)  { return a.asInt().M__float__() }
 
 func (a Bool) M__add__(other Object) (Object, error)       { return a.asInt().M__add__(other) }
 func (a Bool) M__radd__(other Object) (Object, error)      { return a.asInt().M__radd__(other) }
